@@ -161,6 +161,41 @@ pub fn run_prop(ctx: &Ctx, sink: &mut Sink) {
         tags.push("binary");
         sink.push(Case { req, imp, tags });
     }
+    // a word of xargs' own command line that is not valid UTF-8 (a Latin-1 file name as an initial argument):
+    // passed on unchanged or refused with the status of an error of xargs' own - never a crash
+    for (opts, word) in [(vec!["-n1"], &b"caf\xe9"[..]), (vec!["-n1"], &b"\xff"[..]), (vec!["-I", "{}"], &b"x\xfe{}"[..])] {
+        use std::os::unix::ffi::OsStrExt;
+        let dir = ctx.scratch("c19u");
+        let log = dir.join("log");
+        let out = std::process::Command::new(ctx.bin("xargs"))
+            .args(&opts)
+            .arg(ctx.recorder())
+            .arg(std::ffi::OsStr::from_bytes(word))
+            .env("FU_REC_LOG", &log)
+            .stdin(std::process::Stdio::piped())
+            .stdout(std::process::Stdio::null())
+            .stderr(std::process::Stdio::null())
+            .spawn()
+            .and_then(|mut ch| {
+                use std::io::Write;
+                ch.stdin.take().unwrap().write_all(b"a\nb\n")?;
+                ch.wait()
+            })
+            .expect("run xargs");
+        let st = crate::recorder::status_code(out);
+        let text = std::fs::read_to_string(&log).unwrap_or_default();
+        // log lines: "<cwd hex> <argv hex,…>"; the answer lists, per started command, its arguments after the command word
+        let runs: Vec<String> = text.lines().filter_map(|l| l.split(' ').nth(1)).map(|argv| {
+            let mut a: Vec<&str> = argv.split(',').collect();
+            a[0] = "636d64";
+            a.join(",")
+        }).collect();
+        let o: Vec<String> = opts.iter().map(|o| if *o == "-n1" { "n1".to_string() } else if *o == "-I" { "I7b7d".to_string() } else { String::new() }).filter(|x| !x.is_empty()).collect();
+        let req = format!("xargs-run {} 636d64,{} {} . {}", o.join(","), crate::wire::hex(word), crate::wire::hex(b"a\nb\n"), 1usize << 40);
+        let imp = format!("st={} {}", st, if runs.is_empty() { ".".to_string() } else { runs.join(";") });
+        sink.push(Case { req, imp, tags: vec!["non-utf8-command-word", "binary", "nt"] });
+        let _ = std::fs::remove_dir_all(&dir);
+    }
     // missing / non-executable command through the binary
     // (a command that cannot be run for any other reason than "missing" - no permission, a path through a
     //  regular file, an unrecognised executable format - is "cannot be run": 126)
